@@ -82,8 +82,8 @@ ScalarAcc(k, d, s) ==
        ELSE {Conv(r.f, d.a)}
 
 ScalarUndef(k, d, s) == /\ IsAtom(d)
-                        /\ k \in StringOnlyKinds
-                        /\ PyTypeOf[d.a] # "str"
+                        /\ \/ (k \in StringOnlyKinds /\ PyTypeOf[d.a] # "str")
+                           \/ (d.a \in SubclassAtoms /\ k \notin {"Any", "object"})     \* the rules name the classes, not their subclasses
 
 (* ------------------------------ iterables ------------------------------------------- *)
 \* "If strict_coercion is enabled, the loader takes any iterable excluding str and Mapping.
@@ -93,7 +93,7 @@ IterOk(d, s) == \/ d.c \in SeqKinds
                 \/ (~s /\ IsAtom(d) /\ d.a = "s_empty")
 \* iterating a non-empty str / bytes-like atom yields characters / ints that are outside the token universe
 IterUndef(d, s) == /\ IsAtom(d)
-                   /\ \/ (~s /\ PyTypeOf[d.a] = "str" /\ d.a # "s_empty")
+                   /\ \/ (~s /\ d.a \in StrLikeAtoms /\ d.a # "s_empty")          \* (strict: a str - of whatever class - is excluded)
                       \/ PyTypeOf[d.a] \in {"bytes", "bytearray"}
                       \/ d.a \in OtherIterableAtoms          \* e.g. an IPv4Network yields its addresses
 Items(d) == IF d.c \in SeqKinds THEN d.xs ELSE IF d.c \in MapKinds THEN d.ks ELSE <<>>
